@@ -76,13 +76,25 @@ type asyncBackendRoomSubscriber struct {
 }
 
 func (s *asyncBackendRoomSubscriber) processBackendRoomRequest(message *AsyncMessage) {
+	// Iterate over a snapshot so a listener that is removed and added again
+	// while the message is being processed is not notified twice.
 	s.mu.Lock()
-	defer s.mu.Unlock()
-
+	listeners := make([]AsyncBackendRoomEventListener, 0, len(s.listeners))
 	for listener := range s.listeners {
-		s.mu.Unlock()
-		listener.ProcessBackendRoomRequest(message)
+		listeners = append(listeners, listener)
+	}
+	s.mu.Unlock()
+
+	for _, listener := range listeners {
 		s.mu.Lock()
+		_, found := s.listeners[listener]
+		s.mu.Unlock()
+		if !found {
+			// Removed in the meantime.
+			continue
+		}
+
+		listener.ProcessBackendRoomRequest(message)
 	}
 }
 
@@ -111,13 +123,25 @@ type asyncRoomSubscriber struct {
 }
 
 func (s *asyncRoomSubscriber) processAsyncRoomMessage(message *AsyncMessage) {
+	// Iterate over a snapshot so a listener that is removed and added again
+	// while the message is being processed is not notified twice.
 	s.mu.Lock()
-	defer s.mu.Unlock()
-
+	listeners := make([]AsyncRoomEventListener, 0, len(s.listeners))
 	for listener := range s.listeners {
-		s.mu.Unlock()
-		listener.ProcessAsyncRoomMessage(message)
+		listeners = append(listeners, listener)
+	}
+	s.mu.Unlock()
+
+	for _, listener := range listeners {
 		s.mu.Lock()
+		_, found := s.listeners[listener]
+		s.mu.Unlock()
+		if !found {
+			// Removed in the meantime.
+			continue
+		}
+
+		listener.ProcessAsyncRoomMessage(message)
 	}
 }
 
@@ -146,13 +170,25 @@ type asyncUserSubscriber struct {
 }
 
 func (s *asyncUserSubscriber) processAsyncUserMessage(message *AsyncMessage) {
+	// Iterate over a snapshot so a listener that is removed and added again
+	// while the message is being processed is not notified twice.
 	s.mu.Lock()
-	defer s.mu.Unlock()
-
+	listeners := make([]AsyncUserEventListener, 0, len(s.listeners))
 	for listener := range s.listeners {
-		s.mu.Unlock()
-		listener.ProcessAsyncUserMessage(message)
+		listeners = append(listeners, listener)
+	}
+	s.mu.Unlock()
+
+	for _, listener := range listeners {
 		s.mu.Lock()
+		_, found := s.listeners[listener]
+		s.mu.Unlock()
+		if !found {
+			// Removed in the meantime.
+			continue
+		}
+
+		listener.ProcessAsyncUserMessage(message)
 	}
 }
 
@@ -181,13 +217,25 @@ type asyncSessionSubscriber struct {
 }
 
 func (s *asyncSessionSubscriber) processAsyncSessionMessage(message *AsyncMessage) {
+	// Iterate over a snapshot so a listener that is removed and added again
+	// while the message is being processed is not notified twice.
 	s.mu.Lock()
-	defer s.mu.Unlock()
-
+	listeners := make([]AsyncSessionEventListener, 0, len(s.listeners))
 	for listener := range s.listeners {
-		s.mu.Unlock()
-		listener.ProcessAsyncSessionMessage(message)
+		listeners = append(listeners, listener)
+	}
+	s.mu.Unlock()
+
+	for _, listener := range listeners {
 		s.mu.Lock()
+		_, found := s.listeners[listener]
+		s.mu.Unlock()
+		if !found {
+			// Removed in the meantime.
+			continue
+		}
+
+		listener.ProcessAsyncSessionMessage(message)
 	}
 }
 
